@@ -19,4 +19,5 @@ Extraction "model.ml"
   compare op_eq op_ne op_lt op_le op_gt op_ge
   init_world step live get doc_of to_jv ids invalidates_handles
   ps0 pstep alloc_from_last max_pools count sp_add sp_deref sp_refs
-  a_init astep elements.
+  a_init astep elements
+  copy_array_1d copy_array_2d copy_string.
